@@ -83,9 +83,10 @@ func writeGitDir(dir, id string) {
 func ljMaterialise(S string, t *ljTree) {
 	for _, e := range t.Tree {
 		at := filepath.Join(append([]string{S}, e.At...)...)
-		target := filepath.Join(e.To...)
+		// targets are written exactly as the spec gives them (no cleaning: "root/../x" stays un-normalised)
+		target := strings.Join(e.To, "/")
 		if e.Tk == "root" {
-			target = filepath.Join(append([]string{S}, e.To...)...)
+			target = S + "/" + strings.Join(e.To, "/")
 		}
 		switch e.Kind {
 		case "repo":
@@ -219,16 +220,17 @@ func c40(args []string) error {
 
 	for _, row := range rows {
 		var parts []string
+		absTok := map[string]string{"ABS": S, "ABSR": R, "ABSR..": R + "/..", "ABSRX": R + "-private"}
 		for _, t := range row.Req {
-			if t == "ABS" {
-				parts = append(parts, strings.TrimPrefix(S, "/"))
+			if h, ok := absTok[t]; ok {
+				parts = append(parts, strings.TrimPrefix(h, "/"))
 			} else {
 				parts = append(parts, t)
 			}
 		}
 		base := strings.Join(parts, "/")
 		for _, lead := range []string{"", "/"} {
-			if row.Req[0] == "ABS" && lead == "" {
+			if _, isAbs := absTok[row.Req[0]]; isAbs && lead == "" {
 				continue // a host-absolute path starts with a slash
 			}
 			path := lead + base
